@@ -113,12 +113,21 @@ impl StreamCipherCounter for u128 {}
 pub trait StreamCipherSeekCore: StreamCipherCore {
     type Counter: StreamCipherCounter;
     spec fn counter_val(c: Self::Counter) -> int;
+    // the generator state at block position 0, the current block position, and the counter modulus
+    spec fn origin(&self) -> KAbs;
+    spec fn block_pos(&self) -> int;
+    spec fn pos_modulus() -> int;
+    // coherence of position and keystream (C10): the current state is the origin advanced by block_pos
+    proof fn lemma_pos_coherent(&self)
+        ensures self.kabs().base == self.origin().base,
+                self.kabs().pos == (self.origin().pos + self.block_pos()) % Self::pos_modulus();
 
     fn get_block_pos(&self) -> (r: Self::Counter)
-        ensures Self::counter_val(r) == self.kabs().pos;
+        ensures Self::counter_val(r) == self.block_pos();
 
     fn set_block_pos(&mut self, pos: Self::Counter)
         ensures
-            final(self).kabs() == (KAbs { base: old(self).kabs().base, pos: Self::counter_val(pos) }),
+            final(self).origin() == old(self).origin(),
+            final(self).block_pos() == Self::counter_val(pos),
             final(self).kstep() == old(self).kstep();
 }
